@@ -58,7 +58,7 @@ Proof.
   assert (HM : memN p (filter (is_chained s) L) = true <-> In p L).
   { rewrite memN_In, filter_In. tauto. }
   unfold edit. assert (Ty : ctype_of (colls s) p = Some CChained).
-  { unfold is_chained in Cp. destruct (ctype_of (colls s) p) as [[| |]|]; try discriminate. reflexivity. }
+  { unfold is_chained in Cp. destruct (ctype_of (colls s) p) as [[| | |]|]; try discriminate. reflexivity. }
   destruct k; try congruence; rewrite E; simpl;
     (destruct (memN p (filter (is_chained s) L)) eqn:M; simpl;
      [split; [intros _; apply HL; apply HM; reflexivity|reflexivity]
@@ -98,12 +98,12 @@ Proof.
       cbv beta in Hm. rewrite Elc in Hm. apply memN_In in Hm. apply memN_false in M. apply M. apply filter_In. split; [apply Hincl; assumption|assumption]. }
   destruct k; simpl; try rewrite HM; try rewrite Ex; simpl;
     try (destruct (is_chained s p && existsb _ cs); simpl; [reflexivity|]);
-    destruct (ctype_of (colls s) p) as [[| |]|]; reflexivity.
+    destruct (ctype_of (colls s) p) as [[| | |]|]; reflexivity.
 Qed.
 
 (* a cyclic definition (which no sequential history can produce) is where the expansion never ends *)
 Definition cyc_state : st :=
-  mkSt [(1%N, CChained); (2%N, CChained)] [mkRow 1 0 2; mkRow 2 0 1] [] [] [].
+  mkSt [(1%N, CChained); (2%N, CChained)] [mkRow 1 0 2; mkRow 2 0 1] [] [] [] [].
 Lemma cyclic_runs_out_p : ~ acyclic (rows cyc_state) /\ expand cyc_state [1%N] = Err EFuel.
 Proof.
   split; [|vm_compute; reflexivity].
@@ -127,3 +127,17 @@ Lemma position_drift_p :
   snd (drift 16385) = true /\ children (fst (drift 16385)) 4 = [0%N; 1%N] /\
   map rpos (rows (fst (drift 16385))) = [(-32769)%Z; (-32770)%Z].
 Proof. vm_compute. repeat split. Qed.
+
+(* setCollectionChain(flatten=True): the new definition is the flattened child list (no chain among the new
+   children, so a cycle error is impossible and no cycle can arise) *)
+Lemma edit_flat_order_p : forall s p cs s', edit_flat s p cs = (s', Done) ->
+  exists path, flatten s cs = Ok path /\ children s' p = path /\
+    (forall q, q <> p -> children s' q = children s q) /\ colls s' = colls s /\ cont s' = cont s.
+Proof.
+  intros s p cs s' H. unfold edit_flat in H. destruct (flatten s cs) as [path|e] eqn:F; [|discriminate].
+  exists path. split; [reflexivity|]. pose proof (flatten_NoDup _ _ _ F) as ND.
+  destruct (edit_orders_p _ _ _ _ _ H) as [H1 H2]. split; [|exact H2].
+  rewrite H1. apply dedup_acc_nodup_id; [assumption|intros x _ []].
+Qed.
+Lemma leaves_not_chained : forall s l x, In x (dedup (leaves s l)) -> is_chained s x = false.
+Proof. intros s l x H. apply (proj1 (dedup_In _ _)) in H. unfold leaves in H. apply filter_In in H. destruct H as [_ H]. apply negb_true_iff in H. exact H. Qed.
